@@ -604,7 +604,8 @@ fn gen_index(rng: &mut Rng, kind: Ix, small: bool) -> Lay {
                 lay.u32(h.b.len() as u32 + slack, 'i');
                 lay.append(&h);
                 if slack > 0 && rng.chance(1, 2) {
-                    // what `l_aux` promises beyond the header is NOT skipped by the reader
+                    // what `l_aux` promises beyond the header: read and dropped by the reader (/repo fix
+                    // 8288cb5); without these bytes the drain eats into `n_ref` and what follows
                     lay.raw(&vec![0u8; slack as usize]);
                 }
             }
@@ -708,7 +709,7 @@ fn index_corpus(ctx: &mut Ctx) {
         tbi_case(ctx, &[b"TBI\x01".to_vec(), le32(0), h.clone()].concat());
         tbi_case(ctx, &[b"TBI\x01".to_vec(), le32(1), h.clone(), le32(0), le32(0)].concat());
         csi_case(ctx, &[b"CSI\x01".to_vec(), le32(14), le32(5), le32(h.len() as u32), h.clone(), le32(0)].concat());
-        // `l_aux` one short / five long
+        // `l_aux` one short / five long (the five bytes after the header are skipped: /repo fix 8288cb5)
         csi_case(ctx, &[b"CSI\x01".to_vec(), le32(14), le32(5), le32((h.len() as u32).saturating_sub(1)), h.clone(), le32(0)].concat());
         csi_case(ctx, &[b"CSI\x01".to_vec(), le32(14), le32(5), le32(h.len() as u32 + 5), h.clone(), le32(0), le32(0)].concat());
     }
